@@ -8,6 +8,7 @@ import (
 	"testing"
 
 	"verif/internal/drive"
+	"verif/internal/harness"
 
 	"github.com/mgtv-tech/redis-GunYu/config"
 	"github.com/mgtv-tech/redis-GunYu/syncer"
@@ -69,5 +70,12 @@ func TestLive(t *testing.T) {
 		if nl == nil || !nl.Completed {
 			t.Fatalf("restart after clean stop %v: %s %+v", spec, why, nl)
 		}
+	}
+	// one cluster scenario of each kind
+	run := harness.New("C14", "fault_enumeration", "live test")
+	outOfOrderStop(run, d, "cluster-ooo-live", 0)
+	inProcessRestart(run, d, "cluster-inproc-live", 0)
+	if run.Counter("cluster_out_of_order_stops") != 1 || run.Counter("cluster_in_process_restarts") != 1 {
+		t.Fatalf("cluster scenarios did not run to their stop/failure: %d %d", run.Counter("cluster_out_of_order_stops"), run.Counter("cluster_in_process_restarts"))
 	}
 }
